@@ -222,6 +222,21 @@ func c11Instants(d *mcMemDriver, extra ...uint64) []uint64 {
 	for _, e := range extra {
 		add(e)
 	}
+	// the operation window (13:00-19:59) of the two days after the last record, and
+	// instants outside it: the removal prediction is evaluated there
+	last := c11Base(d)
+	for q := range set {
+		if q > last {
+			last = q
+		}
+	}
+	day := (last - d.Net.Epoch) / mcMemDay
+	for _, dd := range []uint64{day + 1, day + 2} {
+		w := d.Net.Epoch + dd*mcMemDay + 13*mcMemHour
+		for _, q := range []uint64{w - 1, w, w + mcMemHour, w + 7*mcMemHour - 1, w + 7*mcMemHour, w + 8*mcMemHour} {
+			set[q] = true
+		}
+	}
 	out := make([]uint64, 0, len(set))
 	for q := range set {
 		out = append(out, q)
@@ -273,6 +288,8 @@ type c11Counters struct {
 	removals         atomic.Int64
 	overwrites       atomic.Int64
 	refCustodianSeen atomic.Int64
+	candidateSeen    atomic.Int64 // instants at which a removal candidate was predicted
+	removePledgeAcc  atomic.Int64 // states reached through remove -> pledge -> accept
 }
 
 var c11Ctr c11Counters
@@ -291,7 +308,7 @@ func c11HistNames(h []int) []string {
 // and on the in-memory instance.
 func c11ColdCheck(s *c11State, qs []uint64, mem map[uint64]string, report func(key, desc string)) {
 	dir := mcMemScratch("c11-disk-")
-	dd, err := newMCMemDriver(dir)
+	dd, err := newMCMemDriverNet(s.d.Net, dir)
 	if err != nil {
 		panic(err)
 	}
@@ -410,6 +427,14 @@ func c11Apply(s *c11State, e int, replaying bool, report func(key, desc string))
 	if changed {
 		c11Ctr.changedLater.Add(1)
 	}
+	for _, q := range qsPost {
+		if post[c11ObsKey("removing", q)] != "nil" {
+			c11Ctr.candidateSeen.Add(1)
+		}
+	}
+	if n := len(s.hist); n >= 3 && s.hist[n-3]/c11Deltas == mcMemRemove && s.hist[n-2]/c11Deltas == mcMemPledge && s.hist[n-1]/c11Deltas == mcMemAccept {
+		c11Ctr.removePledgeAcc.Add(1)
+	}
 
 	// (2) order of the queries, and a second LoadConsensusNodes, are irrelevant
 	fwd := c11Observe(d, qsPost, 0)
@@ -470,26 +495,37 @@ func c11Apply(s *c11State, e int, replaying bool, report func(key, desc string))
 func TestMC_C11(t *testing.T) {
 	c := verifmc.Start(t, "C11", "model_checking")
 	defer c.Finish()
-	c.SetRule("BFS over all histories of real finalized membership / custodian events {pledge, accept, cancel, remove-oldest, custodian-update} x timestamp {equal to, 1 ns after, 12 h after the previous event}; a state is a distinct history; per transition the observation (NodesListWithoutState both modes incl. ConsensusIndex, ConsensusKeys rounds 0/1, ConsensusThreshold final/non-final, PledgingNode, removal candidate, electSnapshotNode for 5 operations, ReadCustodian, ReadAllNodes both modes) is taken at every record boundary (ts-1, ts, ts+1) not later than the appended record before and after the append, in ascending / reverse / interleaved order, after a second LoadConsensusNodes, and (custodian) on cold and warm store handles over an on-disk copy")
+	c.SetRule("BFS over all histories of real finalized membership / custodian events {pledge, accept, cancel, remove-oldest, custodian-update} on a 7-node genesis and {pledge, accept, cancel, remove-oldest} on a 9-node genesis x timestamp {equal to, 1 ns after, 12 h after the previous event}; a state is a distinct history; per transition the observation (NodesListWithoutState both modes incl. ConsensusIndex, ConsensusKeys rounds 0/1, ConsensusThreshold final/non-final, PledgingNode, removal candidate, electSnapshotNode for 5 operations, ReadCustodian, ReadAllNodes both modes) is taken at every record boundary (ts-1, ts, ts+1) not later than the appended record before and after the append, and additionally at 6 instants in / around the operation window of each of the two following days, in ascending / reverse / interleaved order, after a second LoadConsensusNodes, and (custodian) on cold and warm store handles over an on-disk copy")
 	c.Assume("events are finalized at the storage layer (LockInputs, WriteTransaction, WriteSnapshot on a genesis chain's head round) followed by the real LoadConsensusNodes; kernel admission rules (hours, periods, election) are not applied, so some histories are not reachable through consensus",
 		"the two storage lookups ReadCustodian / ReadAllNodes are inclusive (a record stamped q is part of the view at q): for them the instant q == appended timestamp is counted, not compared",
 		"ReadAllNodes(q, false) orders equal timestamps by map iteration and is compared as a set")
 	depth := verifmc.Pick(c, 3, 4)
-	b := &verifmc.BFS[*c11State]{
-		C: c, NumEvents: mcMemKinds * c11Deltas, MaxDepth: depth,
-		EventName: c11EventName,
-		New: func(int) *c11State {
-			d, err := newMCMemDriver("")
-			if err != nil {
-				panic(err)
-			}
-			return &c11State{d: d}
-		},
-		Apply: c11Apply,
-		Key:   func(s *c11State) string { return strings.Join(c11HistNames(s.hist), ",") },
-		Close: func(s *c11State) { s.d.Close() },
+	run := func(name string, kinds int, newDriver func() (*mcMemDriver, error)) (int64, int64, int) {
+		b := &verifmc.BFS[*c11State]{
+			C: c, NumEvents: kinds * c11Deltas, MaxDepth: depth,
+			EventName: c11EventName,
+			New: func(int) *c11State {
+				d, err := newDriver()
+				if err != nil {
+					panic(err)
+				}
+				return &c11State{d: d}
+			},
+			Apply: c11Apply,
+			Key:   func(s *c11State) string { return name + ":" + strings.Join(c11HistNames(s.hist), ",") },
+			Close: func(s *c11State) { s.d.Close() },
+		}
+		st, tr, dp, _ := b.Run()
+		c.Set("states_"+name, st)
+		c.Set("transitions_"+name, tr)
+		return st, tr, dp
 	}
-	states, trans, d, _ := b.Run()
+	// (a) 7-node genesis, all five kinds; (b) 9-node genesis (removals possible from the
+	// start: remove -> pledge -> accept puts a REMOVED record between accepted ones),
+	// membership kinds only
+	states, trans, d := run("net7", mcMemKinds, func() (*mcMemDriver, error) { return newMCMemDriver("") })
+	states9, trans9, _ := run("net9", mcMemRemove+1, func() (*mcMemDriver, error) { return newMCMemDriverNet(mcMemNet9, "") })
+	states, trans = states+states9, trans+trans9
 	c.Set("max_depth", d)
 	c.Set("compared_part_instants", c11Ctr.compared.Load())
 	c.Set("appends_visible_later", c11Ctr.changedLater.Load())
@@ -500,6 +536,8 @@ func TestMC_C11(t *testing.T) {
 	c.Set("cold_handle_instants", c11Ctr.coldInstants.Load())
 	c.Set("custodian_reference_checks", c11Ctr.refCustodianSeen.Load())
 	c.Set("removals", c11Ctr.removals.Load())
+	c.Set("instants_with_removal_candidate", c11Ctr.candidateSeen.Load())
+	c.Set("states_after_remove_pledge_accept", c11Ctr.removePledgeAcc.Load())
 	c.Set("transactions_accepted_by_Validate", c11Ctr.validated.Load())
 	c.Set("transactions_refused_by_Validate", c11Ctr.notValidated.Load())
 	if c.Violations() > 0 {
@@ -510,5 +548,7 @@ func TestMC_C11(t *testing.T) {
 	c.Require(c11Ctr.equalTS.Load() > 10, "equal timestamps were not exercised (%d)", c11Ctr.equalTS.Load())
 	c.Require(c11Ctr.coldChecks.Load() > 10 && c11Ctr.custodianStates.Load() > 10, "custodian cold/warm comparison not exercised (%d)", c11Ctr.coldChecks.Load())
 	c.Require(c11Ctr.removals.Load() > 0, "no removal was reached")
+	c.Require(states9 > 50 && c11Ctr.removePledgeAcc.Load() > 0, "9-node exploration did not reach remove -> pledge -> accept (%d states, %d)", states9, c11Ctr.removePledgeAcc.Load())
+	c.Require(c11Ctr.candidateSeen.Load() > 100, "the removal prediction inside the operation window was not exercised (%d instants)", c11Ctr.candidateSeen.Load())
 	c.Require(c11Ctr.validated.Load() > 0, "no driver transaction passed the real Validate")
 }
